@@ -291,7 +291,7 @@ pub fn gen_world(r: &mut Rng) -> Vec<Tree> {
                 (r.range(1, 4), r.below(12000), r.below(256))
             }
         };
-        let w: [u32; 21] = [14, 18, 16, 3, 3, 6, 5, 6, 5, 2, 2, 2, 3, 3, 3, 2, 8, 2, 2, 3, 4];
+        let w: [u32; 21] = [14, 16, 14, 3, 3, 6, 9, 9, 5, 2, 2, 2, 3, 3, 3, 2, 10, 2, 2, 3, 4];
         match r.weighted(&w) {
             0 => {
                 // time passes for everybody (mostly), or for one endpoint only
@@ -326,12 +326,25 @@ pub fn gen_world(r: &mut Rng) -> Vec<Tree> {
             }
             5 => ops.push(l(vec![n(112u8), n(id)])),
             6 => {
-                let len = *r.pick(&[0usize, 1, 100, 1300, 1301]);
-                ops.push(l(vec![n(105u8), n(k), b(&r.bytes(len))]));
+                // payloads from the client: generated, delivered (sometimes twice, sometimes out of order)
+                let cnt = r.range(1, 3);
+                for _ in 0..cnt {
+                    let len = *r.pick(&[0usize, 1, 100, 1300, 1301]);
+                    ops.push(l(vec![n(105u8), n(k), b(&r.bytes(len))]));
+                }
+                for _ in 0..r.range(1, 4) {
+                    ops.push(l(vec![n(150u8), n(k), n(r.below(cnt + 1)), n(0u8), n(0u8), n(0u8)]));
+                }
             }
             7 => {
-                let len = *r.pick(&[0usize, 1, 100, 1300, 1301]);
-                ops.push(l(vec![n(114u8), n(id), b(&r.bytes(len))]));
+                let cnt = r.range(1, 3);
+                for _ in 0..cnt {
+                    let len = *r.pick(&[0usize, 1, 100, 1300, 1301]);
+                    ops.push(l(vec![n(114u8), n(id), b(&r.bytes(len))]));
+                }
+                for _ in 0..r.range(1, 4) {
+                    ops.push(l(vec![n(152u8), n(k), n(r.below(cnt + 1)), n(0u8), n(0u8), n(0u8)]));
+                }
             }
             8 => {
                 // old datagrams, replayed
